@@ -234,9 +234,34 @@ def hyp_collect(strategy, check_case, n, seed, acc, case_timeout=60, shrink_buck
     except AssertionError:
         if shrink_bucket is None:
             raise
+    except MemoryError:
+        # the code under test exhausted the address-space cap of this worker and what it leaked is still held: a failure
+        # already recorded for it stands, the rest of the shard is abandoned; without a recorded failure the caller decides
+        release_reserve()
+        if not acc.buckets:
+            raise
+        acc.extra['abandoned_after_memory_error'] = acc.extra.get('abandoned_after_memory_error', 0) + 1
     except hypothesis.errors.Unsatisfiable as e:
         raise HarnessError('generator unsatisfiable: %s' % e)
     return last['case'], last['detail']
+
+
+_RESERVE = []
+
+
+def hold_reserve(mb=64, parts=3):
+    """memory set aside at worker start so that a MemoryError caused by the code under test can still be reported"""
+    del _RESERVE[:]
+    for _ in range(parts):
+        _RESERVE.append(bytearray(mb << 20))
+
+
+def release_reserve():
+    """give back one part of the reserve (each stage of reporting gets its own)"""
+    if _RESERVE:
+        _RESERVE.pop()
+    import gc
+    gc.collect()
 
 
 def exc_bucket(e, prefix='exc'):
